@@ -8,9 +8,9 @@ from props import _lay, _fetch
 
 LEVEL = "proof"
 MODULE = "Phil.Props.C16"
-LEVEL_TEXT = "Lean theorems: every top-level function of the parser model is total, and the outcome of tokenizer / parser / attribute conversion / converters / argument interpreter is never a `stray` exception class (processArg_no_stray, asWords_stray_iff); for fetch + extract the list of stray sites is proved exhaustive for the model (fetchRoot_stray_sites: ten sites, each with a smallest input replayed on Python, all through ill-formed masters) and fetch/extract on tree masters only refuse with 'incompatible' or a converter's RuntimeError (fetch_tree_no_stray, extract_tree_no_stray). That the model has every error site of the code is checked by the correspondence run on a malformed stream, where any other exception class is a disagreement. The oracle runs parse, the argument interpreter (fresh interpreter per argument as well as reused), fetch/extract/validate for every built-in type on hostile texts and accepts only success, RuntimeError or Sorry, with a time bound per call."
-LEVEL_NOTE = "proof for the model half, correspondence for the exception-class completeness half; eval() of value expressions is CPython's."
-TECHNIQUE = 'Lean 4 totality/no-stray theorems on the model + differential correspondence on a malformed stream + exception-class oracle'
+LEVEL_TEXT = "Lean theorems: every top-level function of the parser model is total and never produces a `stray` exception class; the same for attribute conversion, converters, the argument interpreter (processArgA_no_stray; with Auto expert levels the exact iff choosePathA_stray_iff = finding D78), variable resolution on every parsed text (resolveAt_parsed_no_stray), include expansion (expand_errors: the only non-RuntimeError is the missing-file OSError), printing (asStr_error_iff, asStr_parsed_total with the sharp width bound), fetch + extract on nested masters incl. .multiple scopes (fetch_ms_errors, extract_ms_no_stray: only 'incompatible' or a converter's RuntimeError), fetch with variables (fetch_with_variables_errors), refusals of the index (index_refusal_unchanged); for fetch + extract in general the list of stray sites is proved exhaustive (fetchRoot_stray_sites, all through ill-formed masters). That the model has every error site of the code is checked by the correspondence run on a malformed stream. The oracle runs parse, the argument interpreter, fetch/extract/validate for every built-in type on hostile texts and accepts only success, RuntimeError or Sorry, with a time bound per call."
+LEVEL_NOTE = "proof for the model half, correspondence for the exception-class completeness half; eval() of value expressions is CPython's. Finding D78 (.expert_level = Auto)."
+TECHNIQUE = 'Lean 4 totality/no-stray theorems on every modelled entry point + differential correspondence on a malformed stream + exception-class oracle'
 RULE = ("PHIL-biased token soup, mutated valid documents (parse), name=value soups (argument interpreter), value texts incl. "
         "inf/nan/1e999/empty brackets/unbalanced parentheses for every built-in type with constructor arguments (fetch, extract, "
         "validate), attribute texts, '.expert_level' spellings x ambiguous arguments (finding D78), environment variables unset / empty / blank / one word / several words referenced as $V, $(V), quoted, embedded and mixed in values of every built-in type through the file and command-line routes (fetch, extract, format, validate; oracle only); non-trivial = the call raised or the text has > 3 tokens; distinct = (stream, text)")
